@@ -1,5 +1,6 @@
 import difflib
 import re
+from copy import copy
 from dataclasses import dataclass
 from typing import (
     TYPE_CHECKING,
@@ -132,10 +133,19 @@ class SlotRef:
     def __init__(self, slot: "SlotNode", context: Context):
         self._slot = slot
         self._context = context
+        # NOTE: The default content belongs to the place where the `{% slot %}` tag is defined. But
+        # the Context object is modified by the time the fill is rendered (e.g. in the "django" mode it is
+        # the very Context in which the fill is rendered, and it then points to the component where
+        # the fill was defined). So we remember the layers as they are now.
+        self._context_layers = context.dicts[:]
+        self._render_context_layers = context.render_context.dicts[:]
 
     # Render the slot when the template coerces SlotRef to string
     def __str__(self) -> str:
-        return mark_safe(self._slot.nodelist.render(self._context))
+        context = copy(self._context)
+        context.dicts = self._context_layers[:]
+        context.render_context.dicts = self._render_context_layers[:]
+        return mark_safe(self._slot.nodelist.render(context))
 
 
 class SlotIsFilled(dict):
